@@ -289,7 +289,9 @@ class SpawnProcess(multiprocessing.context.SpawnProcess):
             # During the execution of this process, logging should not be configured.
             # Logging config should happen in the main process/thread.
             root = logging.getLogger()
-            root.setLevel(logging.DEBUG)
+            root.setLevel(logging.NOTSET)
+            # Forward everything, including custom levels below DEBUG;
+            # what gets handled is decided by the level settings in the parent.
             qh = logging.handlers.QueueHandler(logger_queue)
             root.addHandler(qh)
             logging.captureWarnings(True)
